@@ -1,1 +1,49 @@
-//! sjis (to be filled)
+//! Shift-JIS carrier domain. The codec itself (encoding_rs) is taken as given by the
+//! properties ("strings that the Shift-JIS codec represents losslessly"); this module
+//! computes that domain by enumeration and offers encode/decode for the reference writers.
+
+use encoding_rs::SHIFT_JIS;
+use std::sync::OnceLock;
+
+pub fn encode(s: &str) -> Option<Vec<u8>> {
+    let (b, _, bad) = SHIFT_JIS.encode(s);
+    if bad {
+        None
+    } else {
+        Some(b.into_owned())
+    }
+}
+
+pub fn decode(b: &[u8]) -> String {
+    let (s, _, _) = SHIFT_JIS.decode(b);
+    s.into_owned()
+}
+
+/// NUL-free and encode→decode is the identity.
+pub fn lossless(s: &str) -> bool {
+    if s.contains('\0') {
+        return false;
+    }
+    match encode(s) {
+        Some(b) => !b.contains(&0) && decode(&b) == s,
+        None => false,
+    }
+}
+
+/// Every Unicode scalar value that Shift-JIS represents losslessly (computed once).
+pub fn domain() -> &'static Vec<char> {
+    static D: OnceLock<Vec<char>> = OnceLock::new();
+    D.get_or_init(|| {
+        let mut v = Vec::new();
+        let mut buf = [0u8; 4];
+        for cp in 1u32..=0x10FFFF {
+            if let Some(c) = char::from_u32(cp) {
+                let s: &str = c.encode_utf8(&mut buf);
+                if lossless(s) {
+                    v.push(c);
+                }
+            }
+        }
+        v
+    })
+}
